@@ -5,7 +5,10 @@
            (GetRealOutRec, IsValidOwner, both loops of SetOwner) terminates, and the fuel the executable model uses
            (number of OutRecs + 1) is enough, so a HANG answer of the oracle is a genuine non-termination.
    Part 2: the owner search of BuildTree64: every parent the tree uses was accepted by the code's own tests
-           (Path1InsidePath2 and bounds.Contains), for every shape of RecursiveCheckOwners (see model/Owner.v). *)
+           (Path1InsidePath2 and bounds.Contains), for every shape of the owner search (see model/Owner.v).
+   Part 3: termination of CheckSplitOwner: refuted for the shape of the snapshot (a point-less OutRec whose split list
+           contains itself), proved for that shape when no such cycle exists, proved unconditionally (forest) for the
+           guarded shape of the repair. *)
 From Clip Require Import model.Owner.
 From Coq Require Import List Bool Arith Lia.
 Import ListNotations.
@@ -522,13 +525,13 @@ Proof. cbn. repeat split; lia. Qed.
 
 (* ================================================================ Part 2: the owner search of BuildTree64 *)
 Section SearchProofs.
-  Variables (inside bcontains : nat -> nat -> bool) (bempty is_open : nat -> bool) (own_first mark_owner : bool).
+  Variables (inside bcontains : nat -> nat -> bool) (bempty is_open : nat -> bool) (guard_pointless own_first mark_chain : bool).
 
   (* what RecursiveCheckOwners / CheckSplitOwner test before they keep an owner *)
   Definition accepted (i o : nat) : Prop := inside i o = true /\ bcontains o i = true.
   Definition owner_acc (m : omap) (i : nat) : Prop := forall o, owner_of m i = Some o -> accepted i o.
 
-  Notation cso := (check_split_owner inside bcontains).
+  Notation cso := (check_split_owner inside bcontains guard_pointless).
 
   Lemma cso_spec : forall fuel m i spl m' b, cso fuel m i spl = Some (m', b) ->
     if b then owner_acc m' i else forall k, owner_of m' k = owner_of m k.
@@ -537,11 +540,15 @@ Section SearchProofs.
     destruct spl as [|s rest].
     { injection H as <- <-. reflexivity. }
     (* the #942 call on the split lists of a point-less split *)
-    destruct (if negb (pts_of m s) then cso f m i (splits_of m s) else Some (m, false)) as [[m1 b1]|] eqn:E1; [|discriminate].
+    destruct (if negb (pts_of m s) then
+                if guard_pointless && opt_eqb (rsplit_of m s) i then Some (m, false)
+                else cso f (if guard_pointless then set_rsplit m s (Some i) else m) i (splits_of m s)
+              else Some (m, false)) as [[m1 b1]|] eqn:E1; [|discriminate].
     assert (H1 : if b1 then owner_acc m1 i else forall k, owner_of m1 k = owner_of m k).
-    { destruct (negb (pts_of m s)).
-      - apply (IH _ _ _ _ _ E1).
-      - injection E1 as <- <-. reflexivity. }
+    { destruct (negb (pts_of m s)); [|injection E1 as <- <-; reflexivity].
+      destruct (guard_pointless && opt_eqb (rsplit_of m s) i); [injection E1 as <- <-; reflexivity|].
+      pose proof (IH _ _ _ _ _ E1) as Hr. destruct b1; auto. intros k. rewrite Hr.
+      destruct guard_pointless; auto. apply owner_set_rsplit. }
     destruct b1.
     { injection H as <- <-. exact H1. }
     assert (Hrest : forall mm, (forall k, owner_of mm k = owner_of m k) -> cso f mm i rest = Some (m', b) ->
@@ -570,45 +577,49 @@ Section SearchProofs.
     - eapply Hrest; eauto.
   Qed.
 
-  Lemma climb_acc : forall fuel m i m', climb inside bcontains mark_owner fuel m i = Some m' -> owner_acc m' i.
+  Lemma climb_acc : forall fuel m i m', climb inside bcontains guard_pointless fuel m i = Some m' -> owner_acc m' i.
   Proof.
     induction fuel as [|f IH]; intros m i m' H; cbn [climb] in H; [discriminate|].
     destruct (owner_of m i) as [o|] eqn:Ho.
     2:{ injection H as <-. intros o Ho'. congruence. }
-    set (m0 := if mark_owner then set_rsplit m o (Some i) else m) in *.
-    assert (H0 : forall k, owner_of m0 k = owner_of m k).
-    { intros k. unfold m0. destruct mark_owner; auto. apply owner_set_rsplit. }
-    destruct (cso (S f) m0 i (splits_of m0 o)) as [[m1 b1]|] eqn:E1; [|discriminate].
+    destruct (cso (S f) m i (splits_of m o)) as [[m1 b1]|] eqn:E1; [|discriminate].
     pose proof (cso_spec _ _ _ _ _ _ E1) as H1.
     destruct b1.
     { injection H as <-. exact H1. }
     destruct (pts_of m1 o && check_bounds m1 o && bcontains o i && inside i o) eqn:Ec.
-    - injection H as <-. intros o' Ho'. rewrite H1, H0, Ho in Ho'. injection Ho' as <-.
+    - injection H as <-. intros o' Ho'. rewrite H1, Ho in Ho'. injection Ho' as <-.
       apply andb_prop in Ec. destruct Ec as [Ec Hin]. apply andb_prop in Ec. destruct Ec as [_ Hbc]. split; assumption.
     - eapply IH; eauto.
   Qed.
 
+  Lemma marked_climb_acc fuel m i m' :
+    marked_climb inside bcontains guard_pointless mark_chain fuel m i = Some m' -> owner_acc m' i.
+  Proof.
+    unfold marked_climb. destruct mark_chain; [|apply climb_acc].
+    destruct (mark_owners fuel m i (owner_of m i)) as [m0|]; [|discriminate]. apply climb_acc.
+  Qed.
+
   Lemma find_owner_acc fuel m i m' :
-    find_owner inside bcontains own_first mark_owner fuel m i = Some m' -> owner_acc m' i.
+    find_owner inside bcontains guard_pointless own_first mark_chain fuel m i = Some m' -> owner_acc m' i.
   Proof.
     unfold find_owner. destruct own_first.
     - destruct (cso fuel m i (splits_of m i)) as [[m1 b1]|] eqn:E1; [|discriminate].
       pose proof (cso_spec _ _ _ _ _ _ E1) as H1. destruct b1.
       + intros H. injection H as <-. exact H1.
-      + apply climb_acc.
-    - apply climb_acc.
+      + apply marked_climb_acc.
+    - apply marked_climb_acc.
   Qed.
 
   Definition tree_acc (t : tree) : Prop := forall i p, In (i, Some p) t -> accepted i p.
 
-  Notation rc := (rec_check inside bcontains bempty own_first mark_owner).
+  Notation rc := (rec_check inside bcontains bempty guard_pointless own_first mark_chain).
 
   Lemma rec_check_acc : forall fuel m t i m' t', rc fuel m t i = Some (Some (m', t')) -> tree_acc t -> tree_acc t'.
   Proof.
     induction fuel as [|f IH]; intros m t i m' t' H Ht; cbn [rec_check] in H; [discriminate|].
     destruct (placed t i || bempty i).
     { injection H as <- <-. exact Ht. }
-    destruct (find_owner inside bcontains own_first mark_owner (S f) m i) as [m1|] eqn:Ef; [|discriminate].
+    destruct (find_owner inside bcontains guard_pointless own_first mark_chain (S f) m i) as [m1|] eqn:Ef; [|discriminate].
     pose proof (find_owner_acc _ _ _ _ Ef) as Hacc.
     destruct (owner_of m1 i) as [o|] eqn:Ho.
     2:{ injection H as <- <-. intros k p Hin. apply in_app_or in Hin. destruct Hin as [Hin|[Hin|[]]]; [eauto|discriminate]. }
@@ -623,7 +634,7 @@ Section SearchProofs.
   Qed.
 
   Lemma build_from_acc fuel : forall is m t m' t',
-    build_from inside bcontains bempty is_open own_first mark_owner fuel m t is = Some (Some (m', t')) -> tree_acc t -> tree_acc t'.
+    build_from inside bcontains bempty is_open guard_pointless own_first mark_chain fuel m t is = Some (Some (m', t')) -> tree_acc t -> tree_acc t'.
   Proof.
     induction is as [|i rest IH]; intros m t m' t' H Ht; cbn [build_from] in H.
     - injection H as <- <-. exact Ht.
@@ -635,7 +646,7 @@ Section SearchProofs.
 
   (* every parent the tree uses passed Path1InsidePath2 and bounds.Contains *)
   Theorem tree_parent_inside : forall fuel m m' t i p,
-    build_tree inside bcontains bempty is_open own_first mark_owner fuel m = Some (Some (m', t)) ->
+    build_tree inside bcontains bempty is_open guard_pointless own_first mark_chain fuel m = Some (Some (m', t)) ->
     parent_of t i = Some (Some p) -> inside i p = true /\ bcontains p i = true.
   Proof.
     intros fuel m m' t i p Hb Hp. unfold build_tree in Hb.
@@ -646,30 +657,28 @@ Section SearchProofs.
   Qed.
 End SearchProofs.
 
-(* the hypothesis of tree_parent_inside is satisfiable, in both shapes: a hole 1 inside an outer 0 *)
-Example build_tree_example : forall own_first mark_owner, exists m',
+(* the hypothesis of tree_parent_inside is satisfiable, in every shape: a hole 1 inside an outer 0 *)
+Example build_tree_example : forall guard_pointless own_first mark_chain, exists m',
   build_tree (fun i j => Nat.eqb i 1 && Nat.eqb j 0) (fun a b => Nat.eqb a 0 && Nat.eqb b 1) (fun _ => false) (fun _ => false)
-             own_first mark_owner 20 [mkOrec None true [] None; mkOrec (Some 0) true [] None]
+             guard_pointless own_first mark_chain 20 [mkOrec None true [] None; mkOrec (Some 0) true [] None]
   = Some (Some (m', [(0, None); (1, Some 0)])).
-Proof. intros [|] [|]; eexists; vm_compute; reflexivity. Qed.
+Proof. intros [|] [|] [|]; eexists; vm_compute; reflexivity. Qed.
 
 (* ================================================================ Part 3: termination of CheckSplitOwner *)
-(* The "#942" descent into the split list of a split without points is not protected by the recursive_split marker:
-   a point-less OutRec whose split list leads back to itself sends CheckSplitOwner into an unbounded recursion. *)
+(* In the shape of the snapshot (guard_pointless = false) the "#942" descent into the split list of a split without points
+   is not protected by the recursive_split marker: a point-less OutRec whose split list leads back to itself sends
+   CheckSplitOwner into an unbounded recursion. *)
 Theorem check_split_refuted_pointless_cycle : forall inside bcontains,
-  exists m i spl, forall fuel, check_split_owner inside bcontains fuel m i spl = None.
+  exists m i spl, forall fuel, check_split_owner inside bcontains false fuel m i spl = None.
 Proof.
   intros inside bcontains. exists [mkOrec None false [0] None; mkOrec None true [] None], 1, [0].
   induction fuel as [|f IH]; [reflexivity|].
-  cbn [check_split_owner pts_of get nth has_pts negb splits_of splits]. rewrite IH. reflexivity.
+  cbn [check_split_owner pts_of get nth has_pts negb splits_of splits andb]. rewrite IH. reflexivity.
 Qed.
 
-(* With that cycle excluded (a rank function on point-less OutRecs that decreases along split lists) and the owner graph a
-   forest, CheckSplitOwner terminates: every marker-protected descent marks a new OutRec with points, every unprotected
-   descent lowers the rank, every step along a list shortens it. *)
-Section Termination.
-  Variables (inside bcontains : nat -> nat -> bool).
-  Notation cso := (check_split_owner inside bcontains).
+Section CsoGeneral.
+  Variables (inside bcontains : nat -> nat -> bool) (g : bool).
+  Notation cso := (check_split_owner inside bcontains g).
 
   (* ---- more fuel never changes an answer *)
   Lemma get_real_mono : forall f m x r, get_real f m x = Some r -> forall f', f <= f' -> get_real f' m x = Some r.
@@ -698,7 +707,10 @@ Section Termination.
 
   (* one step of CheckSplitOwner, cut in two *)
   Definition cso_first (f : nat) (m : omap) (i s : nat) : option (omap * bool) :=
-    if negb (pts_of m s) then cso f m i (splits_of m s) else Some (m, false).
+    if negb (pts_of m s) then
+      if g && opt_eqb (rsplit_of m s) i then Some (m, false)
+      else cso f (if g then set_rsplit m s (Some i) else m) i (splits_of m s)
+    else Some (m, false).
 
   Definition cso_tail (f : nat) (m1 : omap) (i s : nat) (rest : list nat) : option (omap * bool) :=
     match get_real f m1 (Some s) with
@@ -731,49 +743,50 @@ Section Termination.
     end.
   Proof. reflexivity. Qed.
 
+  Lemma cso_first_mono_from f f' m i s r1 :
+    (forall m spl r, cso f m i spl = Some r -> cso f' m i spl = Some r) ->
+    cso_first f m i s = Some r1 -> cso_first f' m i s = Some r1.
+  Proof.
+    unfold cso_first. intros IH H1. destruct (negb (pts_of m s)); [|exact H1].
+    destruct (g && opt_eqb (rsplit_of m s) i); [exact H1|]. apply IH. exact H1.
+  Qed.
+
+  Lemma cso_tail_mono_from f f' m1 i s rest r2 : f <= f' ->
+    (forall m spl r, cso f m i spl = Some r -> cso f' m i spl = Some r) ->
+    cso_tail f m1 i s rest = Some r2 -> cso_tail f' m1 i s rest = Some r2.
+  Proof.
+    intros Hle IH E2. unfold cso_tail in *.
+    destruct (get_real f m1 (Some s)) as [y|] eqn:Eg2; [|discriminate].
+    rewrite (get_real_mono _ _ _ _ Eg2 f' Hle).
+    destruct y as [s'|]; [|apply IH; exact E2].
+    destruct (Nat.eqb s' i || opt_eqb (rsplit_of m1 s') i); [apply IH; exact E2|].
+    cbv zeta in *.
+    destruct (cso f (set_rsplit m1 s' (Some i)) i (splits_of (set_rsplit m1 s' (Some i)) s')) as [[m3 b3]|] eqn:E3; [|discriminate].
+    rewrite (IH _ _ _ E3). destruct b3; [exact E2|].
+    destruct (is_valid_owner f m3 i s') as [v|] eqn:Ev; [|discriminate].
+    rewrite (is_valid_owner_mono _ _ _ _ _ Ev f' Hle).
+    destruct (check_bounds m3 s' && v && bcontains s' i && inside i s'); [exact E2|]. apply IH. exact E2.
+  Qed.
+
   Lemma cso_mono : forall f m i spl r, cso f m i spl = Some r -> forall f', f <= f' -> cso f' m i spl = Some r.
   Proof.
     induction f as [|f IH]; intros m i spl r H f' Hle; [discriminate|].
     destruct f' as [|f']; [lia|]. assert (Hle' : f <= f') by lia.
     destruct spl as [|s rest]; [exact H|].
     rewrite cso_unfold in *.
-    assert (Hfirst : forall r1, cso_first f m i s = Some r1 -> cso_first f' m i s = Some r1).
-    { unfold cso_first. intros r1 H1. destruct (negb (pts_of m s)); [eapply IH; eauto|exact H1]. }
+    assert (IH' : forall m spl r, cso f m i spl = Some r -> cso f' m i spl = Some r) by (intros; eapply IH; eauto).
     destruct (cso_first f m i s) as [[m1 b1]|] eqn:E1; [|discriminate].
-    rewrite (Hfirst _ eq_refl). destruct b1; [exact H|].
-    unfold cso_tail in *.
-    destruct (get_real f m1 (Some s)) as [x|] eqn:Eg; [|discriminate].
-    rewrite (get_real_mono _ _ _ _ Eg _ Hle').
-    destruct x as [s'|]; [|eapply IH; eauto].
-    destruct (Nat.eqb s' i || opt_eqb (rsplit_of m1 s') i); [eapply IH; eauto|].
-    cbv zeta in *.
-    destruct (cso f (set_rsplit m1 s' (Some i)) i (splits_of (set_rsplit m1 s' (Some i)) s')) as [[m3 b3]|] eqn:E3; [|discriminate].
-    rewrite (IH _ _ _ _ E3 _ Hle'). destruct b3; [exact H|].
-    destruct (is_valid_owner f m3 i s') as [v|] eqn:Ev; [|discriminate].
-    rewrite (is_valid_owner_mono _ _ _ _ _ Ev _ Hle').
-    destruct (check_bounds m3 s' && v && bcontains s' i && inside i s'); [exact H|]. eapply IH; eauto.
+    rewrite (cso_first_mono_from _ _ _ _ _ _ IH' E1). destruct b1; [exact H|].
+    eapply cso_tail_mono_from; eauto.
   Qed.
 
-  (* ---- the measure *)
+  (* ---- what a search that has not found an owner leaves behind *)
   Variable i : nat.
-  Variable rk : nat -> nat.
-
-  Definition unmarked (m : omap) (k : nat) : bool := pts_of m k && negb (opt_eqb (rsplit_of m k) i).
-  Definition U (m : omap) : nat := length (filter (unmarked m) (seq 0 (length m))).
 
   Definition keeps (m m' : omap) : Prop :=
     length m' = length m /\
     (forall k, pts_of m' k = pts_of m k /\ splits_of m' k = splits_of m k /\ owner_of m' k = owner_of m k) /\
     (forall k, opt_eqb (rsplit_of m k) i = true -> opt_eqb (rsplit_of m' k) i = true).
-
-  Definition ranked (m : omap) : Prop :=
-    forall s s2, pts_of m s = false -> In s2 (splits_of m s) -> pts_of m s2 = false -> rk s2 < rk s.
-
-  Fixpoint lrank (m : omap) (spl : list nat) : nat :=
-    match spl with
-    | [] => 0
-    | s :: t => Nat.max (if pts_of m s then 0 else S (rk s)) (lrank m t)
-    end.
 
   Lemma keeps_refl m : keeps m m.
   Proof. repeat split; auto. Qed.
@@ -787,46 +800,6 @@ Section Termination.
 
   Lemma keeps_good m m' : good m -> keeps m m' -> good m'.
   Proof. intros Hg (L & F & _). eapply same_owner_good; eauto. intros k. apply F. Qed.
-
-  Lemma keeps_ranked m m' : ranked m -> keeps m m' -> ranked m'.
-  Proof.
-    intros Hr (_ & F & _) s s2 H1 H2 H3. destruct (F s) as (P1 & S1 & _). destruct (F s2) as (P2 & _ & _).
-    apply Hr; congruence.
-  Qed.
-
-  Lemma keeps_lrank m m' spl : keeps m m' -> lrank m' spl = lrank m spl.
-  Proof.
-    intros (_ & F & _). induction spl as [|s t IH]; cbn [lrank]; auto. destruct (F s) as (P & _ & _). rewrite P, IH. reflexivity.
-  Qed.
-
-  Lemma filter_length_le {A} (P P' : A -> bool) l :
-    (forall k, In k l -> P' k = true -> P k = true) -> length (filter P' l) <= length (filter P l).
-  Proof.
-    induction l as [|a t IH]; intros H; cbn [filter length]; auto.
-    assert (IHt : length (filter P' t) <= length (filter P t)) by (apply IH; intros; apply H; cbn; auto).
-    destruct (P' a) eqn:E'; destruct (P a) eqn:E; cbn [length]; try lia.
-    rewrite (H a) in E; cbn; auto. discriminate.
-  Qed.
-
-  Lemma filter_length_lt {A} (P P' : A -> bool) l x :
-    (forall k, In k l -> P' k = true -> P k = true) -> In x l -> P x = true -> P' x = false ->
-    length (filter P' l) < length (filter P l).
-  Proof.
-    induction l as [|a t IH]; intros H Hin Hx Hx'; [destruct Hin|].
-    cbn [filter]. assert (Hle : length (filter P' t) <= length (filter P t)) by (apply filter_length_le; intros; apply H; cbn; auto).
-    destruct Hin as [->|Hin].
-    - rewrite Hx, Hx'. cbn [length]. lia.
-    - assert (IHt : length (filter P' t) < length (filter P t)) by (apply IH; auto; intros; apply H; cbn; auto).
-      destruct (P' a) eqn:E'; destruct (P a) eqn:E; cbn [length]; try lia.
-      rewrite (H a) in E; cbn; auto. discriminate.
-  Qed.
-
-  Lemma U_keeps m m' : keeps m m' -> U m' <= U m.
-  Proof.
-    intros (L & F & M). unfold U. rewrite L. apply filter_length_le. intros k _ Hk. unfold unmarked in *.
-    destruct (F k) as (P & _ & _). rewrite P in Hk. apply andb_prop in Hk. destruct Hk as [Hp Hn]. rewrite Hp. cbn [andb].
-    destruct (opt_eqb (rsplit_of m k) i) eqn:E; auto. rewrite (M k E) in Hn. discriminate.
-  Qed.
 
   Lemma rsplit_set_same m s o : s < length m -> rsplit_of (set_rsplit m s o) s = o.
   Proof. intros H. unfold rsplit_of, set_rsplit. rewrite get_upd_same by exact H. reflexivity. Qed.
@@ -858,40 +831,8 @@ Section Termination.
     - rewrite rsplit_set_other by exact Hne. exact Hk.
   Qed.
 
-  Lemma pts_in_range m k : pts_of m k = true -> k < length m.
-  Proof.
-    intros H. destruct (Nat.lt_ge_cases k (length m)); auto. unfold pts_of in H. rewrite get_oob in H by assumption. discriminate.
-  Qed.
-
-  Lemma U_mark m s : pts_of m s = true -> opt_eqb (rsplit_of m s) i = false -> U (set_rsplit m s (Some i)) < U m.
-  Proof.
-    intros Hp Hu. pose proof (pts_in_range _ _ Hp) as Hlt. unfold U.
-    replace (length (set_rsplit m s (Some i))) with (length m) by (unfold set_rsplit; symmetry; apply length_upd).
-    apply filter_length_lt with (x := s).
-    - intros k _ Hk. pose proof (U_keeps _ _ (keeps_mark m s)) as _. unfold unmarked in *.
-      destruct (fields_set_rsplit m s (Some i) k) as (P & _ & _). rewrite P in Hk. apply andb_prop in Hk. destruct Hk as [Hkp Hkn].
-      rewrite Hkp. cbn [andb]. destruct (opt_eqb (rsplit_of m k) i) eqn:E; auto.
-      destruct (keeps_mark m s) as (_ & _ & M). rewrite (M k E) in Hkn. discriminate.
-    - apply in_seq. lia.
-    - unfold unmarked. rewrite Hp, Hu. reflexivity.
-    - unfold unmarked. rewrite rsplit_set_same by exact Hlt. rewrite opt_eqb_refl. apply andb_false_r.
-  Qed.
-
-  Lemma lrank_splits m s : ranked m -> pts_of m s = false -> lrank m (splits_of m s) <= rk s.
-  Proof.
-    intros Hr Hs. assert (H : forall l, (forall s2, In s2 l -> In s2 (splits_of m s)) -> lrank m l <= rk s).
-    { induction l as [|a t IH]; intros Hin; cbn [lrank]; [lia|].
-      assert (IHt : lrank m t <= rk s) by (apply IH; intros; apply Hin; cbn; auto).
-      destruct (pts_of m a) eqn:Ea; [lia|]. pose proof (Hr s a Hs (Hin a (or_introl eq_refl)) Ea). lia. }
-    apply H. auto.
-  Qed.
-
-  Lemma get_real_pts : forall f m x r, get_real f m x = Some (Some r) -> pts_of m r = true.
-  Proof.
-    induction f as [|f IH]; intros m [j|] r H; cbn [get_real] in H; try discriminate.
-    - destruct (pts_of m j) eqn:E; [|discriminate]. injection H as <-. exact E.
-    - destruct (pts_of m j) eqn:E; [injection H as <-; exact E|]. eapply IH; eauto.
-  Qed.
+  Lemma keeps_gmark m s : keeps m (if g then set_rsplit m s (Some i) else m).
+  Proof. destruct g; [apply keeps_mark|apply keeps_refl]. Qed.
 
   Lemma cso_false_keeps : forall f m spl m', cso f m i spl = Some (m', false) -> keeps m m'.
   Proof.
@@ -901,7 +842,9 @@ Section Termination.
     destruct (cso_first f m i s) as [[m1 b1]|] eqn:E1; [|discriminate].
     destruct b1; [discriminate|].
     assert (K1 : keeps m m1).
-    { unfold cso_first in E1. destruct (negb (pts_of m s)); [eapply IH; eauto|]. injection E1 as <-. apply keeps_refl. }
+    { unfold cso_first in E1. destruct (negb (pts_of m s)); [|injection E1 as <-; apply keeps_refl].
+      destruct (g && opt_eqb (rsplit_of m s) i); [injection E1 as <-; apply keeps_refl|].
+      eapply keeps_trans; [apply keeps_gmark|]. eapply IH; eauto. }
     unfold cso_tail in H.
     destruct (get_real f m1 (Some s)) as [[s'|]|]; [| |discriminate].
     2:{ eapply keeps_trans; eauto. }
@@ -914,52 +857,39 @@ Section Termination.
     eapply keeps_trans; [exact K1|]. eapply keeps_trans; [apply keeps_mark|]. eapply keeps_trans; eauto.
   Qed.
 
-  Lemma cso_term : forall nU nR spl m, good m -> ranked m -> U m <= nU -> lrank m spl <= nR ->
-    exists fuel r, cso fuel m i spl = Some r.
+  Lemma get_real_pts : forall f m x r, get_real f m x = Some (Some r) -> pts_of m r = true.
   Proof.
-    induction nU as [nU IHU] using lt_wf_ind. induction nR as [nR IHR] using lt_wf_ind.
-    induction spl as [|s rest IHs]; intros m Hg Hr HU HR.
-    { exists 1. eexists. reflexivity. }
-    cbn [lrank] in HR.
-    (* the unprotected descent *)
-    assert (H1 : exists f1 r1, cso_first f1 m i s = Some r1).
-    { unfold cso_first. destruct (pts_of m s) eqn:Ep; cbn [negb]; [exists 0; eauto|].
-      apply (IHR (rk s)); auto; [lia|]. apply lrank_splits; auto. }
-    destruct H1 as (f1 & [m1 b1] & E1).
+    induction f as [|f IH]; intros m [j|] r H; cbn [get_real] in H; try discriminate.
+    - destruct (pts_of m j) eqn:E; [|discriminate]. injection H as <-. exact E.
+    - destruct (pts_of m j) eqn:E; [injection H as <-; exact E|]. eapply IH; eauto.
+  Qed.
+
+  (* one element of the split list: if the descent at its head has an answer, the rest of the list can be answered in every
+     state the search can leave behind, and the marker-protected descent can be answered whenever it marks a new OutRec,
+     then the whole list can be answered *)
+  Lemma cso_step m s rest f1 m1 b1 :
+    good m ->
+    cso_first f1 m i s = Some (m1, b1) ->
+    (forall mm, keeps m mm -> exists fr rr, cso fr mm i rest = Some rr) ->
+    (forall mm s', keeps m mm -> pts_of mm s' = true -> opt_eqb (rsplit_of mm s') i = false ->
+       exists f3 r3, cso f3 (set_rsplit mm s' (Some i)) i (splits_of (set_rsplit mm s' (Some i)) s') = Some r3) ->
+    exists fuel r, cso fuel m i (s :: rest) = Some r.
+  Proof.
+    intros Hg E1 Hrest Hdesc.
     destruct b1.
     { exists (S f1). eexists. rewrite cso_unfold, E1. reflexivity. }
     assert (K1 : keeps m m1).
-    { unfold cso_first in E1. destruct (negb (pts_of m s)); [eapply cso_false_keeps; eauto|]. injection E1 as <-. apply keeps_refl. }
+    { unfold cso_first in E1. destruct (negb (pts_of m s)); [|injection E1 as <-; apply keeps_refl].
+      destruct (g && opt_eqb (rsplit_of m s) i); [injection E1 as <-; apply keeps_refl|].
+      eapply keeps_trans; [apply keeps_gmark|]. eapply cso_false_keeps; eauto. }
     assert (Hg1 : good m1) by exact (keeps_good _ _ Hg K1).
-    assert (Hr1 : ranked m1) by exact (keeps_ranked _ _ Hr K1).
-    assert (HU1 : U m1 <= nU) by (pose proof (U_keeps _ _ K1); lia).
-    assert (Hrest : forall mm, keeps m mm -> exists fr rr, cso fr mm i rest = Some rr).
-    { intros mm K. apply IHs.
-      - exact (keeps_good _ _ Hg K).
-      - exact (keeps_ranked _ _ Hr K).
-      - pose proof (U_keeps _ _ K). lia.
-      - rewrite (keeps_lrank _ _ rest K). lia. }
-    (* GetRealOutRec *)
     destruct (get_real_total m1 (S (length m1)) (Some s)) as [x Eg].
     { destruct (good_dist m1 s Hg1) as (d & Hd & Hle). exists d. split; auto. lia. }
     set (fg := S (length m1)) in *.
     assert (Hfin : forall f2 r2, cso_tail f2 m1 i s rest = Some r2 -> exists fuel r, cso fuel m i (s :: rest) = Some r).
     { intros f2 r2 E2. exists (S (Nat.max f1 f2)). exists r2. rewrite cso_unfold.
-      assert (E1' : cso_first (Nat.max f1 f2) m i s = Some (m1, false)).
-      { unfold cso_first in *. destruct (negb (pts_of m s)); auto. eapply cso_mono; eauto. lia. }
-      rewrite E1'.
-      (* cso_tail is monotone in the fuel as well *)
-      revert E2. unfold cso_tail. intros E2.
-      destruct (get_real f2 m1 (Some s)) as [y|] eqn:Eg2; [|discriminate].
-      rewrite (get_real_mono _ _ _ _ Eg2 (Nat.max f1 f2)) by lia.
-      destruct y as [s'|]; [|eapply cso_mono; eauto; lia].
-      destruct (Nat.eqb s' i || opt_eqb (rsplit_of m1 s') i); [eapply cso_mono; eauto; lia|].
-      cbv zeta in *.
-      destruct (cso f2 (set_rsplit m1 s' (Some i)) i (splits_of (set_rsplit m1 s' (Some i)) s')) as [[m3 b3]|] eqn:E3; [|discriminate].
-      rewrite (cso_mono _ _ _ _ _ E3 (Nat.max f1 f2)) by lia. destruct b3; [exact E2|].
-      destruct (is_valid_owner f2 m3 i s') as [v|] eqn:Ev; [|discriminate].
-      rewrite (is_valid_owner_mono _ _ _ _ _ Ev (Nat.max f1 f2)) by lia.
-      destruct (check_bounds m3 s' && v && bcontains s' i && inside i s'); [exact E2|]. eapply cso_mono; eauto; lia. }
+      rewrite (cso_first_mono_from f1 (Nat.max f1 f2) _ _ _ _ (fun m spl r H => cso_mono _ _ _ _ _ H _ (Nat.le_max_l _ _)) E1).
+      eapply cso_tail_mono_from; [apply Nat.le_max_r| |exact E2]. intros mm spl r H. eapply cso_mono; [exact H|apply Nat.le_max_r]. }
     destruct x as [s'|].
     2:{ destruct (Hrest m1 K1) as (fr & rr & Er). apply (Hfin (Nat.max fg fr) rr). unfold cso_tail.
         rewrite (get_real_mono _ _ _ _ Eg (Nat.max fg fr)) by lia. eapply cso_mono; eauto. lia. }
@@ -970,9 +900,6 @@ Section Termination.
     pose proof (get_real_pts _ _ _ _ Eg) as Hp'.
     set (m2 := set_rsplit m1 s' (Some i)).
     assert (K2 : keeps m1 m2) by apply keeps_mark.
-    assert (HU2 : U m2 < U m1) by (apply U_mark; auto).
-    assert (Hg2 : good m2) by exact (keeps_good _ _ Hg1 K2).
-    assert (Hr2 : ranked m2) by exact (keeps_ranked _ _ Hr1 K2).
     assert (Htail : forall F, fg <= F -> cso_tail F m1 i s rest =
       match cso F m2 i (splits_of m2 s') with
       | None => None
@@ -985,14 +912,12 @@ Section Termination.
         end
       end).
     { intros F HF. unfold cso_tail. rewrite (get_real_mono _ _ _ _ Eg F HF). rewrite Eeq, Eun. reflexivity. }
-    (* the protected descent: one more OutRec is marked *)
-    assert (HltU : U m2 < nU) by lia.
-    destruct (IHU (U m2) HltU (lrank m2 (splits_of m2 s')) (splits_of m2 s') m2 Hg2 Hr2 (le_n _) (le_n _)) as (f3 & [m3 b3] & E3).
+    destruct (Hdesc m1 s' K1 Hp' Eun) as (f3 & [m3 b3] & E3). fold m2 in E3.
     destruct b3.
     { apply (Hfin (Nat.max fg f3) (m3, true)). rewrite Htail by lia.
       rewrite (cso_mono _ _ _ _ _ E3 (Nat.max fg f3)) by lia. reflexivity. }
     assert (K3 : keeps m2 m3) by (eapply cso_false_keeps; eauto).
-    assert (Hg3 : good m3) by exact (keeps_good _ _ Hg2 K3).
+    assert (Hg3 : good m3) by exact (keeps_good _ _ (keeps_good _ _ Hg1 K2) K3).
     assert (Ev : exists v, is_valid_owner (S (length m3)) m3 i s' = Some v).
     { unfold is_valid_owner. destruct (good_dist m3 s' Hg3) as (d & Hd & Hle).
       destruct (reaches_total m3 i (S (length m3)) s' d Hd) as [bb Hbb]; [lia|]. rewrite Hbb. eauto. }
@@ -1008,20 +933,193 @@ Section Termination.
     rewrite (is_valid_owner_mono _ _ _ _ _ Ev (Nat.max fg (Nat.max f3 (Nat.max fv fr)))) by lia. rewrite Ec.
     eapply cso_mono; eauto. lia.
   Qed.
-End Termination.
 
-(* CheckSplitOwner terminates in every state whose owner graph is a forest and in which no chain of point-less OutRecs
-   through split lists returns to itself (rk: a rank that decreases along such chains). *)
+  (* ---- counting unmarked OutRecs *)
+  Lemma filter_length_le {A} (P P' : A -> bool) l :
+    (forall k, In k l -> P' k = true -> P k = true) -> length (filter P' l) <= length (filter P l).
+  Proof.
+    induction l as [|a t IH]; intros H; cbn [filter length]; auto.
+    assert (IHt : length (filter P' t) <= length (filter P t)) by (apply IH; intros; apply H; cbn; auto).
+    destruct (P' a) eqn:E'; destruct (P a) eqn:E; cbn [length]; try lia.
+    rewrite (H a) in E; cbn; auto. discriminate.
+  Qed.
+
+  Lemma filter_length_lt {A} (P P' : A -> bool) l x :
+    (forall k, In k l -> P' k = true -> P k = true) -> In x l -> P x = true -> P' x = false ->
+    length (filter P' l) < length (filter P l).
+  Proof.
+    induction l as [|a t IH]; intros H Hin Hx Hx'; [destruct Hin|].
+    cbn [filter]. assert (Hle : length (filter P' t) <= length (filter P t)) by (apply filter_length_le; intros; apply H; cbn; auto).
+    destruct Hin as [->|Hin].
+    - rewrite Hx, Hx'. cbn [length]. lia.
+    - assert (IHt : length (filter P' t) < length (filter P t)) by (apply IH; auto; intros; apply H; cbn; auto).
+      destruct (P' a) eqn:E'; destruct (P a) eqn:E; cbn [length]; try lia.
+      rewrite (H a) in E; cbn; auto. discriminate.
+  Qed.
+
+  (* sel = which OutRecs count: those with points (snapshot shape) or all (guarded shape) *)
+  Variable sel : omap -> nat -> bool.
+  Hypothesis sel_keeps : forall m m' k, keeps m m' -> sel m' k = sel m k.
+
+  Definition unmarked (m : omap) (k : nat) : bool := sel m k && negb (opt_eqb (rsplit_of m k) i).
+  Definition U (m : omap) : nat := length (filter (unmarked m) (seq 0 (length m))).
+
+  Lemma U_keeps m m' : keeps m m' -> U m' <= U m.
+  Proof.
+    intros K. pose proof K as (L & F & M). unfold U. rewrite L. apply filter_length_le. intros k _ Hk. unfold unmarked in *.
+    rewrite (sel_keeps _ _ k K) in Hk. apply andb_prop in Hk. destruct Hk as [Hp Hn]. rewrite Hp. cbn [andb].
+    destruct (opt_eqb (rsplit_of m k) i) eqn:E; auto. rewrite (M k E) in Hn. discriminate.
+  Qed.
+
+  Lemma U_mark m s : s < length m -> sel m s = true -> opt_eqb (rsplit_of m s) i = false -> U (set_rsplit m s (Some i)) < U m.
+  Proof.
+    intros Hlt Hp Hu. unfold U.
+    replace (length (set_rsplit m s (Some i))) with (length m) by (unfold set_rsplit; symmetry; apply length_upd).
+    pose proof (keeps_mark m s) as K.
+    apply filter_length_lt with (x := s).
+    - intros k _ Hk. unfold unmarked in *. rewrite (sel_keeps _ _ k K) in Hk. apply andb_prop in Hk. destruct Hk as [Hkp Hkn].
+      rewrite Hkp. cbn [andb]. destruct (opt_eqb (rsplit_of m k) i) eqn:E; auto.
+      destruct K as (_ & _ & M). rewrite (M k E) in Hkn. discriminate.
+    - apply in_seq. lia.
+    - unfold unmarked. rewrite Hp, Hu. reflexivity.
+    - unfold unmarked. rewrite rsplit_set_same by exact Hlt. rewrite opt_eqb_refl. apply andb_false_r.
+  Qed.
+End CsoGeneral.
+
+Lemma pts_in_range m k : pts_of m k = true -> k < length m.
+Proof.
+  intros H. destruct (Nat.lt_ge_cases k (length m)); auto. unfold pts_of in H. rewrite get_oob in H by assumption. discriminate.
+Qed.
+
+(* ---- the snapshot shape: needs a rank on point-less OutRecs that decreases along split lists *)
+Section TermUnguarded.
+  Variables (inside bcontains : nat -> nat -> bool) (i : nat) (rk : nat -> nat).
+  Notation cso := (check_split_owner inside bcontains false).
+  Notation keeps := (keeps i).
+  Notation Up := (U i pts_of).
+
+  Definition ranked (m : omap) : Prop :=
+    forall s s2, pts_of m s = false -> In s2 (splits_of m s) -> pts_of m s2 = false -> rk s2 < rk s.
+
+  Fixpoint lrank (m : omap) (spl : list nat) : nat :=
+    match spl with
+    | [] => 0
+    | s :: t => Nat.max (if pts_of m s then 0 else S (rk s)) (lrank m t)
+    end.
+
+  Lemma pts_keeps m m' k : keeps m m' -> pts_of m' k = pts_of m k.
+  Proof. intros (_ & F & _). apply F. Qed.
+
+  Lemma keeps_ranked m m' : ranked m -> keeps m m' -> ranked m'.
+  Proof.
+    intros Hr (_ & F & _) s s2 H1 H2 H3. destruct (F s) as (P1 & S1 & _). destruct (F s2) as (P2 & _ & _).
+    apply Hr; congruence.
+  Qed.
+
+  Lemma keeps_lrank m m' spl : keeps m m' -> lrank m' spl = lrank m spl.
+  Proof.
+    intros (_ & F & _). induction spl as [|s t IH]; cbn [lrank]; auto. destruct (F s) as (P & _ & _). rewrite P, IH. reflexivity.
+  Qed.
+
+  Lemma lrank_splits m s : ranked m -> pts_of m s = false -> lrank m (splits_of m s) <= rk s.
+  Proof.
+    intros Hr Hs. assert (H : forall l, (forall s2, In s2 l -> In s2 (splits_of m s)) -> lrank m l <= rk s).
+    { induction l as [|a t IH]; intros Hin; cbn [lrank]; [lia|].
+      assert (IHt : lrank m t <= rk s) by (apply IH; intros; apply Hin; cbn; auto).
+      destruct (pts_of m a) eqn:Ea; [lia|]. pose proof (Hr s a Hs (Hin a (or_introl eq_refl)) Ea). lia. }
+    apply H. auto.
+  Qed.
+
+  Lemma cso_term_ranked : forall nU nR spl m, good m -> ranked m -> Up m <= nU -> lrank m spl <= nR ->
+    exists fuel r, cso fuel m i spl = Some r.
+  Proof.
+    induction nU as [nU IHU] using lt_wf_ind. induction nR as [nR IHR] using lt_wf_ind.
+    induction spl as [|s rest IHs]; intros m Hg Hr HU HR.
+    { exists 1. eexists. reflexivity. }
+    cbn [lrank] in HR.
+    assert (H1 : exists f1 r1, cso_first inside bcontains false f1 m i s = Some r1).
+    { unfold cso_first. destruct (pts_of m s) eqn:Ep; cbn [negb andb]; [exists 0; eauto|].
+      apply (IHR (rk s)); auto; [lia|]. apply lrank_splits; auto. }
+    destruct H1 as (f1 & [m1 b1] & E1).
+    eapply cso_step; eauto.
+    - intros mm K. apply IHs.
+      + exact (keeps_good _ _ _ Hg K).
+      + exact (keeps_ranked _ _ Hr K).
+      + pose proof (U_keeps i pts_of pts_keeps _ _ K). lia.
+      + rewrite (keeps_lrank _ _ rest K). lia.
+    - intros mm s' K Hp Hu.
+      pose proof (U_keeps i pts_of pts_keeps _ _ K) as HUmm.
+      pose proof (U_mark i pts_of pts_keeps mm s' (pts_in_range _ _ Hp) Hp Hu) as HUlt.
+      pose proof (keeps_mark i mm s') as K2.
+      assert (K' : keeps m (set_rsplit mm s' (Some i))) by (eapply keeps_trans; eauto).
+      eapply (IHU (Up (set_rsplit mm s' (Some i)))); [lia| | |apply le_n|apply le_n].
+      + exact (keeps_good _ _ _ Hg K').
+      + exact (keeps_ranked _ _ Hr K').
+  Qed.
+End TermUnguarded.
+
+(* ---- the guarded shape: every descent marks a new OutRec, no hypothesis on the split lists is needed *)
+Section TermGuarded.
+  Variables (inside bcontains : nat -> nat -> bool) (i : nat).
+  Notation cso := (check_split_owner inside bcontains true).
+  Notation keeps := (keeps i).
+  Definition all_sel (m : omap) (k : nat) : bool := true.
+  Notation Ua := (U i all_sel).
+
+  Lemma all_keeps m m' k : keeps m m' -> all_sel m' k = all_sel m k.
+  Proof. reflexivity. Qed.
+
+  Lemma splits_oob m s : length m <= s -> splits_of m s = [].
+  Proof. intros H. unfold splits_of. rewrite get_oob by exact H. reflexivity. Qed.
+
+  Lemma cso_term_guarded : forall nU spl m, good m -> Ua m <= nU -> exists fuel r, cso fuel m i spl = Some r.
+  Proof.
+    induction nU as [nU IHU] using lt_wf_ind.
+    induction spl as [|s rest IHs]; intros m Hg HU.
+    { exists 1. eexists. reflexivity. }
+    assert (H1 : exists f1 r1, cso_first inside bcontains true f1 m i s = Some r1).
+    { unfold cso_first. destruct (pts_of m s) eqn:Ep; cbn [negb andb]; [exists 0; eauto|].
+      destruct (opt_eqb (rsplit_of m s) i) eqn:Eu; [exists 0; eauto|].
+      destruct (Nat.lt_ge_cases s (length m)) as [Hlt|Hge].
+      - pose proof (U_mark i all_sel all_keeps m s Hlt eq_refl Eu) as HUlt.
+        eapply (IHU (Ua (set_rsplit m s (Some i)))); [lia| |apply le_n].
+        exact (keeps_good _ _ _ Hg (keeps_mark i m s)).
+      - rewrite (splits_oob m s Hge). exists 1. eexists. reflexivity. }
+    destruct H1 as (f1 & [m1 b1] & E1).
+    eapply cso_step; eauto.
+    - intros mm K. apply IHs.
+      + exact (keeps_good _ _ _ Hg K).
+      + pose proof (U_keeps i all_sel all_keeps _ _ K). lia.
+    - intros mm s' K Hp Hu.
+      pose proof (U_keeps i all_sel all_keeps _ _ K) as HUmm.
+      pose proof (U_mark i all_sel all_keeps mm s' (pts_in_range _ _ Hp) eq_refl Hu) as HUlt.
+      assert (K' : keeps m (set_rsplit mm s' (Some i))) by (eapply keeps_trans; [exact K|apply keeps_mark]).
+      eapply (IHU (Ua (set_rsplit mm s' (Some i)))); [lia| |apply le_n].
+      exact (keeps_good _ _ _ Hg K').
+  Qed.
+End TermGuarded.
+
+(* CheckSplitOwner in the shape of the snapshot terminates in every state whose owner graph is a forest and in which no
+   chain of point-less OutRecs through split lists returns to itself (rk: a rank that decreases along such chains). *)
 Theorem check_split_terminates : forall inside bcontains (rk : nat -> nat) m i spl,
   acyclic m -> (forall a o, owner_of m a = Some o -> o < length m) ->
   (forall s s2, pts_of m s = false -> In s2 (splits_of m s) -> pts_of m s2 = false -> rk s2 < rk s) ->
-  exists fuel r, check_split_owner inside bcontains fuel m i spl = Some r.
+  exists fuel r, check_split_owner inside bcontains false fuel m i spl = Some r.
 Proof.
   intros inside bcontains rk m i spl Hac Hb Hr.
-  eapply (cso_term inside bcontains i rk (U i m) (lrank rk m spl)); auto. split; auto.
+  eapply (cso_term_ranked inside bcontains i rk (U i pts_of m) (lrank rk m spl)); auto. split; auto.
 Qed.
 
-(* the hypothesis is satisfiable, e.g. by every state without split lists *)
+(* ... and in the guarded shape in every state whose owner graph is a forest. *)
+Theorem check_split_guarded_terminates : forall inside bcontains m i spl,
+  acyclic m -> (forall a o, owner_of m a = Some o -> o < length m) ->
+  exists fuel r, check_split_owner inside bcontains true fuel m i spl = Some r.
+Proof.
+  intros inside bcontains m i spl Hac Hb.
+  eapply (cso_term_guarded inside bcontains i (U i all_sel m)); auto. split; auto.
+Qed.
+
+(* the hypothesis on split lists is satisfiable, e.g. by every state without split lists *)
 Example ranked_example : forall s s2, pts_of [mkOrec None true [] None] s = false -> In s2 (splits_of [mkOrec None true [] None] s) ->
   pts_of [mkOrec None true [] None] s2 = false -> 0 < 0.
 Proof. intros [|[|s]] s2 _ H; cbn in H; destruct H. Qed.
